@@ -77,7 +77,9 @@ def cmd_check(args) -> int:
         core.write_evidence(ev)
     except HarnessError as exc:
         core.log(f'HARNESS-ERROR property={pid}: evidence invalid: {exc}')
-        return EXIT_HARNESS
+        if not unknown:
+            return EXIT_HARNESS
+        # a violation must never be hidden by a degenerate coverage record
 
     for sig, vs, f in known:
         print(f'KNOWN-FINDING: property={pid} {sig}: {vs[0].what} '
